@@ -123,8 +123,12 @@ class Plans(object):
 
     def oracle(self):
         """{fn: [[payload, [replies], [delay_ms or None (never answered)]], …]}"""
-        return {fn: [[p, replies, [None if r.kind == "none" else r.delay_ms for r in self.sent[fn][k]]]
-                     for k, (p, replies) in ents.items()] for fn, ents in self.table.items()}
+        def entry(fn, k, p, replies):
+            sent = self.sent.get(fn, {}).get(k)
+            if sent is None or len(sent) != len(replies):       # a table filled in from outside: no delays known
+                return [p, replies]
+            return [p, replies, [None if r.kind == "none" else r.delay_ms for r in sent]]
+        return {fn: [entry(fn, k, p, replies) for k, (p, replies) in ents.items()] for fn, ents in self.table.items()}
 
 
 def mask_cause(x):
@@ -315,7 +319,9 @@ def compare_history(machine, m, history, n_requests, timed=False, request_instan
     received their requests — are the instants of the model's LambdaFunctionScheduled events (first two modes)."""
     import collections
     from common import cj
-    if m.get("status") not in ("SUCCEEDED", "FAILED") or m.get("multiFail"):
+    # several branches of one fan-out failed: under the canonical schedule the earliest failure is the fan-out's (unless
+    # two failed at the same instant: `tieFail`); under any other schedule which is handled first is the schedule's
+    if m.get("status") not in ("SUCCEEDED", "FAILED") or m.get("tieFail" if timed else "multiFail"):
         return "skipped", [], 0
     if oracle_order_ambiguous(m):
         return "skipped.oracle_order", [], 0
@@ -360,7 +366,8 @@ def compare_notifications(m, details, data, timed=False):
     `notifications`: the same statuses in the same order — RUNNING carrying the execution's input, then the terminal
     status carrying the output, or the error name with a cause exactly when the Error Output has one."""
     from common import cj
-    if m.get("status") not in ("SUCCEEDED", "FAILED") or m.get("multiFail") or oracle_order_ambiguous(m):
+    if (m.get("status") not in ("SUCCEEDED", "FAILED") or m.get("tieFail" if timed else "multiFail")
+            or oracle_order_ambiguous(m)):
         return "skipped", []
     want = m.get("notifications", [])
     probs = []
@@ -368,7 +375,9 @@ def compare_notifications(m, details, data, timed=False):
         return "compared", [{"what": "statuses", "engine": [d.get("status") for d in details], "model": [w[0] for w in want]}]
     if timed and details and "endTime" in m:
         stop = details[-1].get("stopDate")
-        if stop is None or abs(stop - (BASE_EPOCH * 1000 + model_ms(m["endTime"]))) >= 1:
+        # the notification carries int(stopDate * 1000) of a float number of epoch seconds: a whole millisecond may come
+        # out one lower (1700000004.005 * 1000 = 1700000004004.9999…); the history's timestamp is compared exactly
+        if stop is None or not (-1.001 <= stop - (BASE_EPOCH * 1000 + model_ms(m["endTime"])) <= 0.001):
             probs.append({"what": "stopDate of the terminal notification (epoch ms)", "engine": stop,
                           "model": BASE_EPOCH * 1000 + model_ms(m["endTime"])})
     for d, (st, payload) in zip(details, want):
